@@ -181,6 +181,9 @@ mod trusted_runtime_host;
 mod tx;
 #[cfg(not(target_arch = "wasm32"))]
 pub mod validated_workspace_patch;
+/// Verification-only seams (compiled only with `--cfg echo_verif`).
+#[cfg(echo_verif)]
+pub mod verif;
 mod warp_state;
 mod witness;
 mod witnessed_suffix;
